@@ -61,7 +61,7 @@ def run(chk):
     progs += [(p, []) for p in matrix_programs()]
     n_matrix = len(progs)
     feats = {}
-    for _ in range(5000 if chk.thorough else 600):
+    for _ in range(25000 if chk.thorough else 600):
         g = proggen.Gen(rng, quantum=False, edge=rng.random() < 0.3)
         progs.append((g.program(), []))
         for f in g.features:
